@@ -30,6 +30,16 @@ KEY = 8 + KEYB                      # bytes of one key triplet [4][key][4]
 
 
 # ------------------------------------------------------------------------------------------------------------------ walking helpers
+def _func(ctx, rel, q):
+    """an anchor function by the name the property gives it: defined in the class, or in a base class of the same module"""
+    return ctx.src.func(rel, C.resolve_method(ctx, rel, q))
+
+
+def _has_func(ctx, rel, q):
+    return ctx.src.has_func(rel, C.resolve_method(ctx, rel, q))
+
+
+
 def _walk(ctx, rel, cls, q, tag="", **kw):
     """walk a function once per (function, tag); a construct the walker cannot lower is an analysis error of the calling rule"""
     cache = ctx.__dict__.setdefault("_c11_walks", {})
@@ -45,7 +55,7 @@ def _walk(ctx, rel, cls, q, tag="", **kw):
             pass
     k = (q, tag)
     if k not in cache:
-        fn = ctx.src.func(rel, q)
+        fn = _func(ctx, rel, q)
         try:
             cache[k] = C.Walker(ctx, rel, cls, fn, **kw).run_function()
         except (Stuck, Unsupported) as e:
@@ -58,10 +68,10 @@ def _walk(ctx, rel, cls, q, tag="", **kw):
             at = f"{tb[-1].filename.split('/')[-1]}:{tb[-1].lineno}" if tb else "?"
             cache[k] = Stuck(f"the evaluator failed on this function ({type(e).__name__}: {e}, at {at})")
     else:
-        ctx.src.func(rel, q)
+        _func(ctx, rel, q)
     w = cache[k]
     if isinstance(w, Exception):
-        ctx.error(f"{q.split('.')[-1]}: cannot follow the file position", ctx.src.func(rel, q), str(w))
+        ctx.error(f"{q.split('.')[-1]}: cannot follow the file position", _func(ctx, rel, q), str(w))
         return None
     # bytes of the file decoded into a number that steers the reading (a count, a test) through a function the evaluator does not model
     # (int.from_bytes, np.frombuffer, ...): nothing can be decided about such a reader
@@ -69,7 +79,7 @@ def _walk(ctx, rel, cls, q, tag="", **kw):
         w._c11_unmodelled = sorted(n for n in _decoders(w.top.items, binary_only=True) if n not in MODELLED_DECODERS)
     if w._c11_unmodelled:
         ctx.error(f"{q.split('.')[-1]}: bytes read from the file steer the reading through a decoder the evaluator does not model",
-                  ctx.src.func(rel, q), w._c11_unmodelled)
+                  _func(ctx, rel, q), w._c11_unmodelled)
         return None
     return w
 
@@ -78,6 +88,7 @@ MODELLED_DECODERS = frozenset({"dec", "arr", "call:len", "call:.decode", "call:b
 
 
 def _w2(ctx, name, **kw):
+    kw.setdefault("sizes", T.size_model(ctx, "op2"))
     return _walk(ctx, OP2, "OP2", "OP2." + name, **kw)
 
 
@@ -150,7 +161,7 @@ def _readers(ctx, loader):
         if old:
             old[0]["paths"].append(path)
             continue
-        ctx.src.func(OP4, "OP4." + fn.name)
+        _func(ctx, OP4, "OP4." + fn.name)
         w = _w4(ctx, loader, tag="reader:" + fn.name, force=_path_oracle(path), no_inline=SKIPPERS)
         if w is None:
             continue
@@ -341,7 +352,8 @@ def _tested_counter(lp):
         return None, None, False
     upd = [v for p, v in lp.carry if p.equals(ps[0])]
     dec = ps[0] - upd[0] if len(upd) == 1 and upd[0] is not None and not is_unknown(upd[0]) and not isinstance(upd[0], tuple) else None
-    return ps[0], dec, C.same(lp.test, F.fn("ge0", ps[0] - 1), whole_values=False)
+    # (`while P > 0` and `while P != 0` stop at the same place: the counter reaches 0 exactly at the end of a well-formed column)
+    return ps[0], dec, C.same(lp.test, F.fn("ge0", ps[0] - 1), whole_values=False) or C.same(lp.test, F.fn("not", F.fn("eq0", ps[0])), whole_values=False)
 
 
 def _rat(v):
@@ -414,18 +426,28 @@ def _check_site(ctx, q, c, tbs, extra=None, site_label="", mtype=None, label=Non
     # which binding decodes which matrix type: odd Nastran types (1 real, 3 complex) are single precision
     resolved = all(T.struct_items(T.strval(f_, tbs[32])) is not None for _path, (f_, *_r) in lvs)       # (else: reported above as an analysis error)
     if mtype is not None and resolved:
-        good, detail = True, None
-        codes = set()
-        for path, (f_, *_r) in lvs:
-            si = T.struct_items(T.strval(f_, tbs[32]))
-            code = si[1][0][1] if si is not None and len(si[1]) == 1 else None
-            codes.add(code)
-            sel = len(path) == 1 and _rat(mtype) and C.same(path[0][0], F.fn("odd", mtype))
-            if not sel or code not in ("f", "d") or (code == "f") != path[0][1]:
-                good, detail = False, {"binding": _leaf_label(path), "struct code with 32-bit keys": code}
-        good = good and codes == {"f", "d"}
-        ctx.check(good, f"{nm}{site_label}: the single-precision formats decode exactly the odd matrix types (1 and 3), the double-precision formats the "
-                        "even ones", node, detail)
+        # decided for the four Nastran matrix types: the type is given each value in turn and the selections of the format are taken
+        good, detail, undecided = True, None, None
+        if not _rat(mtype) or C.as_atom(mtype) is None:
+            undecided = "the matrix type the formats are selected by"
+        else:
+            for k in (1, 2, 3, 4):
+                fk = C.settle(C.renamer([(mtype, F.const(k))])(fmtv))
+                if any(d[0] == "fn" and d[1] in ("phi", "odd") for d in C.walk_atoms(fk)):
+                    undecided = f"the format selected for matrix type {k}"
+                    break
+                si = T.struct_items(T.strval(fk, tbs[32]))
+                code = si[1][0][1] if si is not None and len(si[1]) == 1 else None
+                if code is None:
+                    undecided = f"the format selected for matrix type {k}"
+                    break
+                if code != ("f" if k & 1 else "d"):
+                    good, detail = False, {"matrix type": k, "struct code with 32-bit keys": code, "expected": "f" if k & 1 else "d"}
+        text = f"{nm}{site_label}: the single-precision formats decode exactly the odd matrix types (1 and 3), the double-precision formats the even ones"
+        if good and undecided is not None:
+            ctx.error(text + " [cannot be decided]", node, undecided)
+        else:
+            ctx.check(good, text, node, detail)
     # the switch itself
     t = C.fn_parts(C.norm(c["test"])) if _rat(c["test"]) else None
     ok = t is not None and t[0] == "ge0"
@@ -433,8 +455,8 @@ def _check_site(ctx, q, c, tbs, extra=None, site_label="", mtype=None, label=Non
         # apart from what the count is made of, the test refers to plain settings only (nothing read from the file)
         mine = {d for d in C.walk_atoms(C.norm(cnt))}
         rest = [d for d in C.walk_atoms(t[1][0]) if d not in mine]
-        ok = bool(rest) and all(d[0] == "s" for d in rest)
-    ctx.check(ok, f"{nm}{site_label}: the switch compares the number of values with a setting (the tunable cut-off), nothing else", node, nontrivial=False)
+        ok = all(d[0] == "s" for d in rest)        # (a literal cut-off is as good as a tunable one)
+    ctx.check(ok, f"{nm}{site_label}: the switch compares the number of values with a setting (the cut-off), nothing read from the file", node, nontrivial=False)
 
 
 def _divisor(count):
@@ -472,7 +494,7 @@ def r1_cutover_pairs(ctx):
     # ---- op2
     n2 = 0
     for name in ("rdop2matrix", "rdop2record", "rdop2dynamics"):
-        if not ctx.src.has_func(OP2, "OP2." + name):
+        if not _has_func(ctx, OP2, "OP2." + name):
             continue
         w = _w2(ctx, name)
         if w is None:
@@ -589,29 +611,48 @@ def r2_declared_sizes(ctx):
             if e[0] != "unpack":
                 continue
             pf, nb = C.fn_parts(e[1]) if _rat(e[1]) else None, _bytes_of(e[2])
-            if pf is None or pf[0] != "structof" or nb is None or not (C.sym_name(nb) or "").startswith("self.") or not (C.sym_name(pf[1][0]) or "").startswith("self."):
+            if pf is None or pf[0] != "structof" or nb is None or nb.is_const() or not (C.sym_name(pf[1][0]) or "").startswith("self."):
                 continue
-            k = (C.sym_name(pf[1][0]), C.sym_name(nb))
-            if k not in pairs:
-                pairs.append(k)
-    _bound(ctx, len(pairs) >= 4, f"declared-size rule bound to {len(pairs)} (struct, byte count) attribute pairs of the op4 reader", fn4)
+            # (the byte count: an attribute, a property computed from the word size, an expression - judged by its value)
+            k = (C.sym_name(pf[1][0]), repr(C.norm(nb)))
+            if k not in [(a_, b_) for a_, b_, _v in pairs]:
+                pairs.append((k[0], k[1], nb))
+    _bound(ctx, len(pairs) >= 4, f"declared-size rule bound to {len(pairs)} (struct, byte count) pairs of the op4 reader", fn4)
+    dense_sites = []
+    for rd in _readers(ctx, "_loadop4_binary"):
+        if rd["layout"] == "dense":
+            cols = C.loops_of_call(rd["w"], rd["fn"])
+            dense_sites = [c for c in rd["w"].cutovers if any(_is_sub_frame(c["frame"], lp.frame) for lp in cols)]
     for bits, label, word in ((64, "64-bit", 8), (32, "32-bit", 4)):
         tb = tbs["op4"][bits]
-        for sname, bname in sorted(pairs):
+        for sname, btxt, bval in sorted(pairs, key=lambda t: t[:2]):
             txt = T.strval(tb.get(sname), tb)
-            b = T.numval(tb.get(bname), tb)
+            b = T.numval(C.norm(bval), tb)
             si = T.struct_items(txt)
+            bname = C.sym_name(bval)[5:] if (C.sym_name(bval) or "").startswith("self.") else btxt
             if si is None or b is None or not b.is_const() or any(c == "%d" for c, _k in si[1]):
-                ctx.error(f"op4 {label}: {sname[5:]} / {bname[5:]}", fn4, {"format": txt, "bytes": repr(b)})
+                ctx.error(f"op4 {label}: {sname[5:]} / {bname}", fn4, {"format": txt, "bytes": repr(b)})
                 continue
             cnt = sum(c for c, _k in si[1])
             size = sum(c * STRUCT_SIZE[k] for c, k in si[1])
             ok = size == b.const_value() and all(STRUCT_SIZE[k] == word and STRUCT_KIND[k] == "int" for _c, k in si[1])
-            ctx.check(ok, f"op4 {label}: {bname[5:]} = {b!r} equals the size of its struct format {sname[5:]} ({cnt} x {word} bytes, integers)", fn4,
+            ctx.check(ok, f"op4 {label}: {bname} = {b!r} equals the size of its struct format {sname[5:]} ({cnt} x {word} bytes, integers)", fn4,
                       None if ok else {"format": txt.replace(T.ENDIAN, ""), "bytes": repr(b)})
-        wpd = T.numval(tb.get("self._wordsperdouble"), tb)
+        # words per double: the divisor the dense reader applies to the announced words for the double-precision types (whatever holds it:
+        # an attribute set at open time, a property, a literal)
+        wpd = None
+        if len(dense_sites) == 1:
+            dv = _divisor(dense_sites[0]["count_ff"])
+            if dv is not None:
+                try:
+                    leaves_ = C.leaves([dv])
+                except Unsupported:
+                    leaves_ = []
+                dbl = [v[0] for path, v in leaves_ if len(path) == 1 and not path[0][1] and (C.fn_parts(path[0][0]) or ("",))[0] == "odd"]
+                if len(dbl) == 1:
+                    wpd = T.numval(C.norm(dbl[0]), tb)
         if wpd is None or not wpd.is_const():
-            ctx.error(f"op4 {label}: _wordsperdouble cannot be resolved", fn4, {"wordsperdouble": repr(wpd)})
+            ctx.error(f"op4 {label}: words per double-precision value cannot be resolved", fn4, {"words per double": repr(wpd)})
         else:
             ok = wpd.const_value() * word == 8
             ctx.check(ok, f"op4 {label}: words per double = 8 / word size", fn4, {"wordsperdouble": repr(wpd), "word": word})
@@ -655,32 +696,59 @@ def r2_declared_sizes(ctx):
             for i, nm in enumerate(("single-precision struct format", "single-precision numpy dtype", "double-precision struct format", "double-precision numpy dtype")):
                 ok = all((texts[b][i] or "").startswith(T.ENDIAN) for b in (32, 64))
                 ctx.check(ok, f"op4: the {nm} carries the detected byte order", fn4, nontrivial=False)
+    # ---- op2: the formats that have the size of a key, found where they are used (whatever the attributes that hold them are called):
+    # integers = the signed binding of the record decode, "single precision" reals = the odd-type binding of the matrix decode, the key
+    # struct = what _getkey decodes with
+    def site_leaves(name):
+        w = _w2(ctx, name) if _has_func(ctx, OP2, "OP2." + name) else None
+        if w is None or not w.cutovers:
+            return None
+        c = w.cutovers[0]
+        fp = C.fn_parts(c["fmt"]) if _rat(c["fmt"]) else None
+        if fp is None or fp[0] not in ("fmt", "mod") or C.norm(c["count_ff"]).is_zero():
+            return None
+        try:
+            return C.leaves([fp[1][0], c["dtype"], c["nbytes"] / c["count_ff"]])
+        except Unsupported:
+            return None
+    rec_leaves, mat_leaves = site_leaves("rdop2record"), site_leaves("rdop2matrix")
+    gk = _w2(ctx, "_getkey")
+    keyfmt = [e[1] for e in gk.events if e[0] == "unpack" and _bytes_of(e[2]) is not None] if gk is not None else []
     for bits, label, isz in ((32, "32-bit", 4), (64, "64-bit", 8)):
         tb = tbs["op2"][bits]
-        ib = T.numval(tb.get("self._ibytes"), tb)
-        di, si = T.dtype_of(T.strval(tb.get("self._intstr"), tb)), T.struct_items(T.strval(tb.get("self._intstru"), tb))
-        det = {"intstr": T.strval(tb.get("self._intstr"), tb), "intstru": T.strval(tb.get("self._intstru"), tb), "ibytes": repr(ib)}
-        if di is None or si is None or ib is None or not ib.is_const():
-            ctx.error(f"op2 {label}: _intstr / _intstru / _ibytes cannot be resolved", fn2, det)
+
+        def resolved(lvs, want_kind, pick):
+            out = []
+            for path, (f_, d_, b_) in lvs or []:
+                ftxt, dtxt, bnum = T.strval(f_, tb), T.strval(d_, tb), T.numval(C.norm(b_), tb)
+                si_, dt_ = T.struct_items(ftxt), T.dtype_of(dtxt)
+                if si_ is None or dt_ is None or len(si_[1]) != 1 or bnum is None or not bnum.is_const():
+                    continue
+                if STRUCT_KIND[si_[1][0][1]] == want_kind and pick(path):
+                    out.append((si_, dt_, bnum, ftxt, dtxt))
+            return out
+        ints = resolved(rec_leaves, "int", lambda path: True)
+        if len(ints) != 1:
+            ctx.error(f"op2 {label}: the integer formats of a record (numpy dtype / struct code / bytes per value) cannot be resolved", fn2, len(ints))
         else:
-            ok = len(si[1]) == 1 and di[2] == STRUCT_SIZE[si[1][0][1]] == ib.const_value() == isz and NP_KIND[di[1]] == STRUCT_KIND[si[1][0][1]] == "int" \
-                and di[0] == si[0] == T.ENDIAN
-            ctx.check(ok, f"op2 {label}: integer numpy dtype, struct code and _ibytes agree", fn2, det)
-        fb = T.numval(tb.get("self._fbytes"), tb)
-        dr_, sr_ = T.dtype_of(T.strval(tb.get("self._rfrm"), tb)), T.struct_items(T.strval(tb.get("self._rfrmu"), tb))
-        det = {"rfrm": T.strval(tb.get("self._rfrm"), tb), "rfrmu": T.strval(tb.get("self._rfrmu"), tb), "fbytes": repr(fb)}
-        if dr_ is None or sr_ is None or fb is None or not fb.is_const():
-            ctx.error(f"op2 {label}: _rfrm / _rfrmu / _fbytes cannot be resolved", fn2, det)
+            si, di, ib, ftxt, dtxt = ints[0]
+            ok = di[2] == STRUCT_SIZE[si[1][0][1]] == ib.const_value() == isz and NP_KIND[di[1]] == "int" and di[0] == si[0] == T.ENDIAN
+            ctx.check(ok, f"op2 {label}: integer numpy dtype, struct code and bytes per integer agree and have the size of a key", fn2,
+                      {"numpy": dtxt, "struct": ftxt, "bytes": repr(ib)})
+        reals = resolved(mat_leaves, "float", lambda path: len(path) == 1 and path[0][1] and (C.fn_parts(path[0][0]) or ("",))[0] == "odd")
+        if len(reals) != 1:
+            ctx.error(f"op2 {label}: the single-precision formats of a matrix (numpy dtype / struct code / bytes per value) cannot be resolved", fn2, len(reals))
         else:
-            ok = len(sr_[1]) == 1 and dr_[2] == STRUCT_SIZE[sr_[1][0][1]] == fb.const_value() == isz \
-                and NP_KIND[dr_[1]] == STRUCT_KIND[sr_[1][0][1]] == "float" and dr_[0] == sr_[0] == T.ENDIAN
-            ctx.check(ok, f"op2 {label}: real numpy dtype, struct code and _fbytes agree", fn2, det)
-        sk = T.struct_items(T.strval(tb.get("self._Str"), tb))
+            sr_, dr_, fb, ftxt, dtxt = reals[0]
+            ok = dr_[2] == STRUCT_SIZE[sr_[1][0][1]] == fb.const_value() == isz and NP_KIND[dr_[1]] == "float" and dr_[0] == sr_[0] == T.ENDIAN
+            ctx.check(ok, f"op2 {label}: real numpy dtype, struct code and bytes per real agree and have the size of a key", fn2,
+                      {"numpy": dtxt, "struct": ftxt, "bytes": repr(fb)})
+        sk = T.struct_items(T.strval(keyfmt[0], tb)) if len(keyfmt) == 1 else None
         if sk is None:
-            ctx.error(f"op2 {label}: key struct cannot be resolved", fn2, repr(tb.get("self._Str")))
+            ctx.error(f"op2 {label}: key struct cannot be resolved", fn2, repr(keyfmt[:1]))
         else:
             ok = len(sk[1]) == 1 and sk[1][0][0] == 1 and STRUCT_SIZE[sk[1][0][1]] == isz and STRUCT_KIND[sk[1][0][1]] == "int"
-            ctx.check(ok, f"op2 {label}: key struct is {isz} bytes", fn2, T.strval(tb.get("self._Str"), tb))
+            ctx.check(ok, f"op2 {label}: key struct is {isz} bytes", fn2, T.strval(keyfmt[0], tb))
 
 
 # ------------------------------------------------------------------------------------------------------------------ R3
@@ -748,6 +816,41 @@ def _lines_divisor(tot, L):
     return None
 
 
+_MODELLED_CALLS = frozenset({"call:int", "call:len", "call:slice", "call:.decode"})
+
+
+def _opaque_value(*values):
+    """a value the rules cannot judge: missing, or built with something the evaluator does not compute (the result of a call it does not
+    model, an attribute of an object, true division, a text built from values)"""
+    for v in values:
+        if not _rat(v):
+            return True
+        for d in C.walk_atoms(v):
+            if d[0] == "fn" and ((d[1].startswith("call:") and d[1] not in _MODELLED_CALLS) or d[1].startswith("attr:")
+                                 or d[1] in ("truediv", "fstr", "comp", "each")):
+                return True
+    return False
+
+
+def _verdict(ctx, ok, text, where, detail, *values, key=None, pairs=None):
+    """an obligation on values: when it does not hold and one of the values is not something the evaluator computes - or, for an equality
+    (`pairs` [(got, expected, whole values)]), no numbers are found on which the two sides differ - the rule cannot decide (analysis error);
+    otherwise it is a verdict (with the witness)"""
+    if not ok and _opaque_value(*values):
+        ctx.error(text + " [cannot be decided: a value involved is not computed by the evaluator]", where, detail)
+        return False
+    if not ok and pairs:
+        wit = None
+        for a, b, whole in pairs:
+            wit = wit or C.refute(a, b, whole)
+        if wit is None:
+            ctx.error(text + " [cannot be decided: the two sides are not the same formula, and no numbers were found on which they differ]", where, detail)
+            return False
+        detail = {"values": detail, "differ for instance with": wit}
+    ctx.check(ok, text, where, detail, key=key)
+    return ok
+
+
 def r3_sibling_decoders(ctx):
     """the string-header arithmetic is the same function of the header words in the ASCII reader, the binary reader and the skipper, and the
     data read for a string is what its header announces"""
@@ -773,6 +876,9 @@ def r3_sibling_decoders(ctx):
                 continue
             if P is None or len(puts) != 1:
                 ctx.error(f"{reader}: words-left counter / store call of the string loop", lp.node, {"counter": repr(P), "stores": len(puts)})
+                continue
+            if not positive and _flag_loop(lp):
+                ctx.error(f"{reader}: the string loop is steered by a flag whose meaning could not be resolved", lp.node, {"loop test": repr(lp.test)[:300]})
                 continue
             ctx.check(positive, f"{reader}: strings are read exactly while words of the column remain (words left > 0)", lp.node,
                       None if positive else {"loop test": repr(C.norm(lp.test, whole_values=False))})
@@ -832,33 +938,46 @@ def r3_sibling_decoders(ctx):
                 continue
             hi, lo = F.fn("hi16", W), F.fn("lo16", W)
             ok = values_ok(d, L, hi)
-            ctx.check(ok, f"{reader}: values per string = ((IS >> 16) - 1) // words-per-value", lp.node, None if ok else repr(L))
+            _verdict(ctx, ok, f"{reader}: values per string = ((IS >> 16) - 1) // words-per-value", lp.node, None if ok else repr(L), L)
             ok = _rat(dec) and C.same(dec, hi)
-            ctx.check(ok, f"{reader}: words consumed per string = IS >> 16 (L + 1)", lp.node, None if ok else repr(dec))
+            _verdict(ctx, ok, f"{reader}: words consumed per string = IS >> 16 (L + 1)", lp.node, None if ok else repr(dec), dec, pairs=[(dec, hi, True)])
             ok = _rat(r) and C.same(r, lo - 1)
-            ctx.check(ok, f"{reader}: first row = (low 16 bits of IS) - 1, for every row up to 65535", lp.node,
-                      None if ok else f"{r!r} (the ASCII and binary decoders must place the same string at the same row)",
-                      key=f"C11-R3|{d['label']}|first row")
+            _verdict(ctx, ok, f"{reader}: first row = (low 16 bits of IS) - 1, for every row up to 65535", lp.node,
+                     None if ok else f"{r!r} (the ASCII and binary decoders must place the same string at the same row)", r,
+                     key=f"C11-R3|{d['label']}|first row", pairs=[(r, lo - 1, True)])
         else:
             # the header of a bigmat string is the pair (L_header, row): fields 0 and 1 of the read / line that starts the loop body
             f0 = _header_field(dec - 1) if _rat(dec) else None
             f1 = _header_field(r + 1) if _rat(r) else None
+
+            def near_field(v, off):
+                """v is a header field up to a constant other than the expected one: a definite difference"""
+                return _rat(v) and any(_header_field(v + k) is not None for k in range(-3, 4) if k != off)
             ok = f0 is not None and f0[1] == 0
-            ctx.check(ok, f"{reader}: bigmat words consumed per string = L_header + 1, L_header being the first header field", lp.node,
-                      None if ok else {"words": repr(dec)})
+            text = f"{reader}: bigmat words consumed per string = L_header + 1, L_header being the first header field"
+            if ok or f0 is not None or near_field(dec, -1):
+                ctx.check(ok, text, lp.node, None if ok else {"words": repr(dec)})
+            else:
+                ctx.error(text + " [cannot be decided: the words counted off are not a header field the evaluator recognises]", lp.node, {"words": repr(dec)})
             ok = f1 is not None and f1[1] == 1 and f0 is not None and f0[0] == f1[0] and C.same(f0[2], f1[2])
-            ctx.check(ok, f"{reader}: bigmat first row = header row - 1, the row being the second field of the same header", lp.node,
-                      None if ok else {"row": repr(r)})
+            text = f"{reader}: bigmat first row = header row - 1, the row being the second field of the same header"
+            if ok or (f1 is not None and f0 is not None) or near_field(r, 1):
+                ctx.check(ok, text, lp.node, None if ok else {"row": repr(r)})
+            else:
+                ctx.error(text + " [cannot be decided: the row is not a header field the evaluator recognises]", lp.node, {"row": repr(r)})
             if f0 is None:
                 continue
             W0 = dec - 1
             ok = values_ok(d, L, W0)
-            ctx.check(ok, f"{reader}: bigmat values per string = (L_header - 1) // words-per-value", lp.node, None if ok else repr(L))
+            _verdict(ctx, ok, f"{reader}: bigmat values per string = (L_header - 1) // words-per-value", lp.node, None if ok else repr(L), L)
         # the data read for the string is what the header announces
         if d["binary"]:
             tot = C.total(lp.items, "B")
             tbs = T.tables(ctx)["op4"]
             good, detail = tot is not None and _rat(dec), None
+            if not good:
+                ctx.error(f"{reader}: the bytes read per string cannot be added up (the string loop branches or loops inside)", lp.node, C.show(lp.items)[:300])
+                continue
             if good:
                 for path, (t_, d_) in C.leaves([tot, dec]):
                     for bits in (32, 64):
@@ -871,8 +990,11 @@ def r3_sibling_decoders(ctx):
             tot = C.total(lp.items, "L")
             pl = _lines_divisor(tot, L)
             ok = pl is not None
-            ctx.check(ok, f"{reader}: a string is one header line plus ceil(L / perline) data lines for the L values it stores", lp.node,
-                      None if ok else {"lines": repr(tot), "values": repr(L)})
+            if not ok and tot is None:
+                ctx.error(f"{reader}: the lines read per string cannot be added up (the string loop branches or loops inside)", lp.node, C.show(lp.items)[:300])
+                continue
+            _verdict(ctx, ok, f"{reader}: a string is one header line plus ceil(L / perline) data lines for the L values it stores", lp.node,
+                     None if ok else {"lines": repr(tot), "values": repr(L)}, tot, L)
             if pl is not None:
                 perlines.append(pl)
     # dense columns: the column header carries the (1-based) row of the first value
@@ -900,7 +1022,7 @@ def r3_sibling_decoders(ctx):
                 ok = h1 is not None and h0 is not None and h1[1] == 1 and h0[1] == 1 and h1[0] == h0[0] and h1[0] in ("word", "field")
             if not ok:
                 detail = {"first row": repr(r)}
-        ctx.check(ok, f"{reader}: the first row of a dense column = (row field of its column header) - 1", puts[0][5], detail)
+        _verdict(ctx, ok, f"{reader}: the first row of a dense column = (row field of its column header) - 1", puts[0][5], detail, r)
         if not binary:
             L = _store_arg(ctx, w, puts[0], "count")
             pl = _lines_divisor(C.total(col.items, "L"), L)       # the block and the next column header
@@ -911,8 +1033,12 @@ def r3_sibling_decoders(ctx):
     if arow:
         wl = arow[0]["w"]
         ok = all(d["wper"] is not None and d["wdiv"] is not None and C.same(d["wdiv"], d["wper"]) for d in arow)
-        ctx.check(ok, "_loadop4_ascii: a value takes 1 word for the odd matrix types (single precision) and 2 words otherwise, the type being the "
-                      "one reported for the matrix", wl.fn, None if ok else repr(arow[0]["wdiv"]))
+        text = "_loadop4_ascii: a value takes 1 word for the odd matrix types (single precision) and 2 words otherwise, the type being the one reported for the matrix"
+        if not ok and any(d["wper"] is None or d["wdiv"] is None for d in arow):
+            ctx.error(text + " [cannot be decided: the number of values of a string is not (words announced) // (words per value)]", wl.fn,
+                      [repr(d["L"])[:200] for d in arow if d["wdiv"] is None])
+        else:
+            _verdict(ctx, ok, text, wl.fn, None if ok else repr(arow[0]["wdiv"]), *[d["wdiv"] for d in arow])
     # words per value: the ASCII skipper and the ASCII loader derive it from the matrix type identically (the skipper walked in the case
     # that takes its nonbigmat path, with its parameters standing for what the loader passes)
     cs = _ascii_cases(ctx)
@@ -936,8 +1062,8 @@ def r3_sibling_decoders(ctx):
                   None if got else {"loader": repr(want)})
     # one values-per-line for every ASCII reader
     ok = len(perlines) >= 3 and all(C.same(perlines[0], x, whole_values=False) for x in perlines[1:])
-    if len(perlines) >= 3 or len(res) == 4:
-        ctx.check(ok, "the three ASCII readers split their blocks by the same values-per-line", ctx.src.func(OP4, "OP4._loadop4_ascii"),
+    if len(perlines) >= 3:          # (a reader whose lines per block could not be read off has been reported above)
+        ctx.check(ok, "the three ASCII readers split their blocks by the same values-per-line", _func(ctx, OP4, "OP4._loadop4_ascii"),
                   None if ok else [repr(x)[:120] for x in perlines])
     ctx.__dict__["_c11_perline"] = perlines[0] if perlines else None
     # sentinel: every reader evaluated
@@ -1000,9 +1126,40 @@ def _position_like(v):
     return False
 
 
+def _flag_loop(lp):
+    """a loop whose test is (the negation of) a bare loop-carried truth value: a flag the evaluator could not write on the values at the top of
+    the loop - what the loop tests is then not known to the rules"""
+    t = lp.test
+    if not _rat(t):
+        return False
+    p = C.fn_parts(t)
+    if p is not None and p[0] == "not" and len(p[1]) == 1 and not isinstance(p[1][0], str):
+        t = p[1][0]
+        p = C.fn_parts(t)
+    return p is not None and p[0] == "lv" and C.is_truth_value(t)
+
+
+def _opaque_amount_in(v):
+    """an amount / test of a consumption tree built with something the evaluator does not compute (a call it does not model applied to
+    plain numbers, true division)"""
+    if not _rat(v):
+        return False
+    for d in C.walk_atoms(v):
+        if d[0] == "fn" and d[1] in ("truediv", "call:bool", "fstr") or d[0] == "fn" and d[1].startswith(("call:math.", "call:np.", "call:numpy.", "call:round", "call:float",
+                                                                                                        "call:min", "call:max", "call:sum")):
+            return True
+    return False
+
+
 def _unjudgeable(items):
     """why a consumption tree cannot be compared / measured: a loop with several exits that has no normal form, an absolute seek"""
     for it in items:
+        if it[0] in ("B", "L", "abs", "if") and _opaque_amount_in(it[1]):
+            return "an amount or a test computed by a function the evaluator does not model"
+        if it[0] == "loop" and (_opaque_amount_in(it[1].test) or any(_opaque_amount_in(v) for _p, v in it[1].carry)):
+            return "a loop on a value computed by a function the evaluator does not model"
+        if it[0] == "loop" and _flag_loop(it[1]):
+            return "a loop steered by a flag whose meaning could not be resolved"
         if it[0] == "abs" and _position_like(it[1]):
             # (a target made of nothing but words decoded from the file and constants is a position counted from the start of the file:
             # that can be judged - it is not where a reader that works record by record has to go)
@@ -1021,9 +1178,18 @@ def _unjudgeable(items):
     return None
 
 
-def _tree_check(ctx, ok, text, where, detail, *trees):
-    """an obligation on the shape / amounts of consumption trees: when it does not hold and a tree has no normal form, the rule cannot
-    judge (analysis error); otherwise it is a verdict"""
+def _tree_check(ctx, ok, text, where, detail, *trees, bound=True, pair=None):
+    """an obligation on the shape / amounts of consumption trees: when it does not hold and a tree has no normal form - or the things it
+    speaks about could not be found (`bound` false) - the rule cannot judge (analysis error); otherwise it is a verdict"""
+    if not ok and not bound:
+        ctx.error(text + " [cannot be judged: the loops / amounts it speaks about could not be identified]", where, detail)
+        return False
+    if not ok and pair is not None:
+        wit = C.refute(*pair)
+        if wit is None:
+            ctx.error(text + " [cannot be decided: two amounts are not the same formula, and no numbers were found on which they differ]", where, detail)
+            return False
+        detail = {"detail": detail, "differ for instance with": wit}
     if not ok:
         for t in trees:
             why = _unjudgeable(t) if t is not None else None
@@ -1050,6 +1216,13 @@ def _same_tree(ctx, a, b, text, where, whole_values=True, detail=None):
     d = None
     if not ok:
         d = {"first difference": why[:1]}
+        if C.LAST_DIFFERENCE:
+            # two amounts / tests that are not the same formula: a violation only with numbers on which they differ
+            wit = C.refute(*C.LAST_DIFFERENCE[0])
+            if wit is None:
+                ctx.error(text + " [cannot be decided: two amounts are not the same formula, and no numbers were found on which they differ]", where, d)
+                return False
+            d["differ for instance with"] = wit
         d.update(detail() if callable(detail) else (detail or {}))
     ctx.check(ok, text, where, d)
     return ok
@@ -1128,8 +1301,8 @@ def r4_read_equals_skip(ctx):
                     k = (int(kk), int((c0 - 8 * kk) // 8))
             ok = k is not None and k[0] >= 1 and k[1] == 3
             detail = None if ok else {"bytes": repr(rest), "fixed part": repr(fixed), "keys, records": k}
-        ctx.check(ok, "rdop2nt: apart from its three records ([4][payload][4]: name, trailer, name) it consumes a whole number of key triplets "
-                      "of 8 + ibytes bytes, as _getkey reads them", nt.fn, detail)
+        _tree_check(ctx, ok, "rdop2nt: apart from its three records ([4][payload][4]: name, trailer, name) it consumes a whole number of key triplets "
+                    "of 8 + ibytes bytes, as _getkey reads them", nt.fn, detail, nt.top.items, bound=tot is not None)
     # ---- matrix
     rm, sm = _w2(ctx, "rdop2matrix"), _w2(ctx, "skipop2matrix")
     if rm is not None and sm is not None:
@@ -1139,33 +1312,35 @@ def r4_read_equals_skip(ctx):
                    detail=lambda: {"read": C.show(rm.top.items)[:400], "skip": C.show(sm.top.items)[:400]})
         lps = C.loops_in(rm.top.items)
         rec = [lp for lp in lps if not C.loops_in(lp.items)]
-        ok = len(rec) == 1 and C.total(rec[0].items, "B") is not None
+        ok = bound = len(rec) == 1 and C.total(rec[0].items, "B") is not None
         word = F.fn("idx", F.fn("dec", F.fn("rd", rec[0].frame, F.const(0), F.const(4))), F.const(0)) if ok else None
         ok = ok and C.same(C.total(rec[0].items, "B"), 4 + word + 4 + KEY)
         _tree_check(ctx, ok, "rdop2matrix: per record reads 4 + ibytes + n*bytes_per + 4 bytes with n = (reclen - ibytes)//bytes_per (= 4 + reclen + 4 for "
-                    "whole values), on both sides of the cut-over", rec[0].node if rec else rm.fn, None if ok else C.show(rm.top.items)[:400], rm.top.items)
+                    "whole values), on both sides of the cut-over", rec[0].node if rec else rm.fn, None if ok else C.show(rm.top.items)[:400], rm.top.items, bound=bound)
     if sm is not None:
         rec = [lp for lp in C.loops_in(sm.top.items) if not C.loops_in(lp.items)]
-        ok = len(rec) == 1 and C.total(rec[0].items, "B") is not None
+        ok = bound = len(rec) == 1 and C.total(rec[0].items, "B") is not None
         word = F.fn("idx", F.fn("dec", F.fn("rd", rec[0].frame, F.const(0), F.const(4))), F.const(0)) if ok else None
         ok = ok and C.same(C.total(rec[0].items, "B"), 4 + word + 4 + KEY, whole_values=False)
-        _tree_check(ctx, ok, "skipop2matrix: per record skips 4 + reclen + 4 bytes", rec[0].node if rec else sm.fn, None if ok else C.show(sm.top.items)[:400], sm.top.items)
+        _tree_check(ctx, ok, "skipop2matrix: per record skips 4 + reclen + 4 bytes", rec[0].node if rec else sm.fn, None if ok else C.show(sm.top.items)[:400], sm.top.items,
+                    bound=bound)
     # ---- records
     rr, sr = _w2(ctx, "rdop2record"), _w2(ctx, "skipop2record")
     sk_loop = None
     if sr is not None:
         al = _after_loops(sr.top.items)
-        ok = len(al) == 1
+        ok = bound = len(al) == 1
         if ok:
             sk_loop, tail = al[0]
             word = F.fn("idx", F.fn("dec", F.fn("rd", sk_loop.frame, F.const(0), F.const(4))), F.const(0))
-            ok = C.total(sk_loop.items, "B") is not None and C.same(C.total(sk_loop.items, "B"), 4 + word + 4 + KEY, whole_values=False) \
-                and C.total(_until_exit(tail), "B") is not None and C.same(C.total(_until_exit(tail), "B"), 2 * KEY)
-        _tree_check(ctx, ok, "skipop2record: per record 4 + (reclen + 4) bytes, then the two trailing keys", sr.fn, None if ok else C.show(sr.top.items)[:400], sr.top.items)
+            bound = C.total(sk_loop.items, "B") is not None and C.total(_until_exit(tail), "B") is not None
+            ok = bound and C.same(C.total(sk_loop.items, "B"), 4 + word + 4 + KEY, whole_values=False) and C.same(C.total(_until_exit(tail), "B"), 2 * KEY)
+        _tree_check(ctx, ok, "skipop2record: per record 4 + (reclen + 4) bytes, then the two trailing keys", sr.fn, None if ok else C.show(sr.top.items)[:400], sr.top.items,
+                    bound=bound)
     if rr is not None:
         al = _after_loops(rr.top.items)
         _bound(ctx, len(al) >= 2, f"rdop2record: {len(al)} record loops (raw bytes; decoded values)", rr.fn)
-        ntail = 0
+        ntail, tails_bound = 0, True
         for lp, tail in al:
             why = []
             if sr is not None:          # (a skipper that could not be walked has been reported as an analysis error)
@@ -1173,13 +1348,17 @@ def r4_read_equals_skip(ctx):
                 if ok:
                     ren = C.renamer([(lp.frame, F.sym("LOOP"))])
                     ren2 = C.renamer([(sk_loop.frame, F.sym("LOOP"))])
+                    del C.LAST_DIFFERENCE[:]
                     ok = C.same_loops(C.map_loop(lp, ren), C.map_loop(sk_loop, ren2), why=why)
                 _tree_check(ctx, ok, "rdop2record loop: per record 4 + reclen + 4 bytes and the next key, exactly what skipop2record skips (payload read "
                             "as n = reclen // bytes_per values of bytes_per bytes, on both sides of the cut-over)", lp.node,
-                            None if ok else {"first difference": why[:1], "loop": C.show(lp.items)[:300]}, rr.top.items, sr.top.items)
+                            None if ok else {"first difference": why[:1], "loop": C.show(lp.items)[:300]}, rr.top.items, sr.top.items, bound=sk_loop is not None,
+                            pair=C.LAST_DIFFERENCE[0] if (not ok and C.LAST_DIFFERENCE) else None)
             t = C.total(_until_exit(tail), "B")
             ntail += t is not None and C.same(t, 2 * KEY)
-        _tree_check(ctx, ntail == len(al) and ntail > 0, "rdop2record: two trailing keys are skipped on every exit that follows a record loop", rr.fn, None, rr.top.items)
+            tails_bound = tails_bound and t is not None
+        _tree_check(ctx, ntail == len(al) and ntail > 0, "rdop2record: two trailing keys are skipped on every exit that follows a record loop", rr.fn, None, rr.top.items,
+                    bound=tails_bound and bool(al))
     # ---- table headers and DYNAMICS: a record of `key` words
     for name, label in (("rdop2tabheaders", "rdop2tabheaders: per record 4 + 3*ibytes + (key - 3)*ibytes + 4 bytes (= 4 + key*ibytes + 4; reclen = key * ibytes)"),
                         ("rdop2dynamics", "rdop2dynamics: per record 4 + 3*ibytes + (key - 3)*ibytes + 4 bytes whichever of the three routes (struct, fromfile, seek) "
@@ -1188,13 +1367,16 @@ def r4_read_equals_skip(ctx):
         if w is None:
             continue
         rec = [(lp, tail) for lp, tail in _after_loops(w.top.items) if not C.loops_in(lp.items) and C.tidy(lp.items)]
-        ok = len(rec) == 1
+        ok = bound = len(rec) == 1
         detail = None
         if ok:
             lp, tail = rec[0]
             P, _dec = _counter(lp)
             tot = C.total(lp.items, "B")
-            ok = P is not None and tot is not None and C.same(tot, 4 + P * KEYB + 4 + KEY)
+            bound = P is not None and tot is not None
+            # the payload: `key` words of the key width, or - the same for a table record - what the record marker announces
+            word = F.fn("idx", F.fn("dec", F.fn("rd", lp.frame, F.const(0), F.const(4))), F.const(0))
+            ok = P is not None and tot is not None and (C.same(tot, 4 + P * KEYB + 4 + KEY) or C.same(tot, 4 + word + 4 + KEY))
             if not ok:
                 detail = C.show(lp.items)[:400]
             if ok:
@@ -1203,13 +1385,13 @@ def r4_read_equals_skip(ctx):
                 ok = len(t2) >= 1 and t2[0][0] == "B" and len(t2) >= 2 and t2[1][0] == "if" and C.same(t2[0][1], 2 * KEY + 4)
                 if not ok:
                     detail = C.show(tail)[:300]
-        _tree_check(ctx, ok, label + "; two trailing keys and the end-of-table key follow", w.fn, detail, w.top.items)
+        _tree_check(ctx, ok, label + "; two trailing keys and the end-of-table key follow", w.fn, detail, w.top.items, bound=bound)
     # ---- op4 binary: record = [4][3 words][payload][4]
     tbs = T.tables(ctx)["op4"]
     sb = _w4(ctx, "_skipop4_binary")
     if sb is not None:
         lps = C.loops_in(sb.top.items)
-        ok = len(lps) == 1 and C.total(lps[0].items, "B") is not None
+        ok = bound = len(lps) == 1 and C.total(lps[0].items, "B") is not None
         if ok:
             lp = lps[0]
             word = F.fn("idx", F.fn("dec", F.fn("rd", lp.frame, F.const(0), F.const(4))), F.const(0))
@@ -1220,6 +1402,7 @@ def r4_read_equals_skip(ctx):
             upd = [v for p, v in lp.carry if len(ps) == 1 and p.equals(ps[0])]
             hf = _header_field(upd[0], anywhere=True) if len(upd) == 1 and _rat(upd[0]) else None
             cols = F.sym(sb.fn.args.args[1].arg) if len(sb.fn.args.args) > 1 else None
+            bound = len(ps) == 1 and cols is not None and (hf is not None or (len(upd) == 1 and not _opaque_value(upd[0])))
             ok = ok and t is not None and t[0] == "ge0" and len(ps) == 1 and cols is not None and C.same(t[1][0], cols - ps[0]) \
                 and hf is not None and hf[0] == "word" and hf[1] == 0
             # the column number is the first word after the record length
@@ -1231,7 +1414,7 @@ def r4_read_equals_skip(ctx):
                 et = C.fn_parts(C.norm(lp.entry_test()))
                 ok = et is not None and et[0] == "ge0" and (et[1][0] - cols).is_const() and (et[1][0] - cols).const_value() >= -1
         _tree_check(ctx, ok, "_skipop4_binary: per column record 4 + reclen + 4 bytes; the column number is the first header word; stops after the "
-                    "sentinel column cols + 1", sb.fn, None if ok else C.show(sb.top.items)[:300], sb.top.items)
+                    "sentinel column cols + 1", sb.fn, None if ok else C.show(sb.top.items)[:300], sb.top.items, bound=bound)
     dense_w = None
     for rd in _readers(ctx, "_loadop4_binary"):
         reader, rf, w = rd["name"], rd["fn"], rd["w"]
@@ -1258,15 +1441,21 @@ def r4_read_equals_skip(ctx):
                         if a is None or b is None or not C.same(a, b):
                             good, detail = False, {"bytes read per column": repr(a), "nwords x word size + end marker + next head": repr(b), "keys": f"{bits}-bit",
                                                    "binding": _leaf_label(path)}
-            ctx.check(good, f"{reader}: per column the payload is nwords words of the key width (both precisions, both key widths), followed by the "
-                            "end marker and the 4 + 3-word head of the next record", col.node, detail)
+            if not good and (tot is None or len(nwp) != 1):
+                ctx.error(f"{reader}: the bytes read per column / the number of words of a column could not be identified", col.node, C.show(body)[:300])
+            else:
+                ctx.check(good, f"{reader}: per column the payload is nwords words of the key width (both precisions, both key widths), followed by the "
+                                "end marker and the 4 + 3-word head of the next record", col.node, detail)
         else:
             inner = C.loops_in(col.items, deep=False)
             rest = [it for it in body if it[0] != "loop"]
             tot = C.total(rest, "B")
             ok = len(inner) == 1 and tot is not None and all(C.same(T.numval(C.norm(tot), tbs[b]), 4 + head[b]) for b in (32, 64))
-            ctx.check(ok, f"{reader}: per column the strings are followed by the end marker and the 4 + 3-word head of the next record", col.node,
-                      None if ok else C.show(body)[:300])
+            if not ok and (len(inner) != 1 or tot is None):
+                ctx.error(f"{reader}: the string loop of a column / the bytes read after it could not be identified", col.node, C.show(body)[:300])
+            else:
+                ctx.check(ok, f"{reader}: per column the strings are followed by the end marker and the 4 + 3-word head of the next record", col.node,
+                          None if ok else C.show(body)[:300])
         # loop condition: same stop as the skipper (column number - 1 < cols  <=>  column number <= cols), column number = header word 0,
         # cols = the number of columns a listing reports (and the skipper is given)
         t = C.fn_parts(C.norm(col.test))
@@ -1277,8 +1466,14 @@ def r4_read_equals_skip(ctx):
         colsv = lst[0][1][1] if lst is not None and isinstance(lst[0][1], tuple) and len(lst[0][1]) == 2 else None
         ok = t is not None and t[0] == "ge0" and len(ps) == 1 and _rat(colsv) and C.same(t[1][0], colsv - (ps[0] + 1)) and hf is not None \
             and hf[0] == "word" and hf[1] == 0
-        ctx.check(ok, f"{reader}: reads columns while (column number of the head just read) <= cols, the condition the skipper stops on", col.node,
-                  None if ok else {"test": repr(C.norm(col.test))})
+        if not ok and _flag_loop(col):
+            ctx.error(f"{reader}: the column loop is steered by a flag whose meaning could not be resolved", col.node, {"test": repr(col.test)[:300]})
+        elif not ok and (len(ps) != 1 or not _rat(colsv) or (hf is None and (len(upd) != 1 or _opaque_value(upd[0])))):
+            ctx.error(f"{reader}: the column counter of the column loop / the number of columns of the header could not be identified", col.node,
+                      {"test": repr(C.norm(col.test))[:300]})
+        else:
+            ctx.check(ok, f"{reader}: reads columns while (column number of the head just read) <= cols, the condition the skipper stops on", col.node,
+                      None if ok else {"test": repr(C.norm(col.test))})
     if dense_w is not None:
         # after the reader: the rest of the sentinel record.  The reader returns the record length it read last.
         w, rf = dense_w["w"], dense_w["fn"]
@@ -1286,20 +1481,23 @@ def r4_read_equals_skip(ctx):
         post = [t for lp, t in _after_loops(w.top.items) if len(col) == 1 and lp is col[0]]
         post = post[0] if len(post) == 1 else []
         tail = C.tidy(_until_exit(post))
-        ok = len(col) == 1 and len(tail) == 1 and tail[0][0] == "B"
+        ok = bound = len(col) == 1 and len(tail) == 1 and tail[0][0] == "B"
         if ok:
             # the record length in force after the loop: entry value (first record) or the one read in the last iteration
             ps = [(p, v) for p, v in col[0].carry if _rat(v) and _header_field(v, True) is not None and _header_field(v, True)[0] == "word"
                   and C.fn_parts(_header_field(v, True)[2])[1][2].equals(F.const(4))]
-            ok = len(ps) == 1 and all(C.same(T.numval(C.norm(tail[0][1]), tbs[b]),
-                                             F.fn("fin", ps[0][0]) - 3 * (b // 8) + 4) for b in (32, 64))
-        ctx.check(ok, "_loadop4_binary: after the sentinel head (4 + 3 words) the rest of the record and its end marker are consumed "
-                      "(reclen - 3 words + 4)", w.fn, None if ok else C.show(post)[:300])
+            bound = len(ps) == 1
+            ok = bound and all(C.same(T.numval(C.norm(tail[0][1]), tbs[b]), F.fn("fin", ps[0][0]) - 3 * (b // 8) + 4) for b in (32, 64))
+        _tree_check(ctx, ok, "_loadop4_binary: after the sentinel head (4 + 3 words) the rest of the record and its end marker are consumed "
+                    "(reclen - 3 words + 4)", w.fn, None if ok else C.show(post)[:300], post, bound=bound)
         # the skipper is told the number of columns a listing reports
         lst = _listing(w)
-        a = _skip_args(w, ctx.src.func(OP4, "OP4._skipop4_binary"), "self._skipop4_binary")
+        a = _skip_args(w, _func(ctx, OP4, "OP4._skipop4_binary"), "self._skipop4_binary")
         ok = lst is not None and a is not None and len(a) == 1 and isinstance(lst[0][1], tuple) and C.same(list(a.values())[0], lst[0][1][1])
-        ctx.check(ok, "_loadop4_binary: the skipper is given the number of columns of the matrix header (the one a listing reports)", w.fn)
+        if not ok and (lst is None or a is None or not isinstance(lst[0][1], tuple)):
+            ctx.error("_loadop4_binary: the call of the skipper / the size a listing reports could not be identified", w.fn)
+        else:
+            ctx.check(ok, "_loadop4_binary: the skipper is given the number of columns of the matrix header (the one a listing reports)", w.fn)
     # ---- op4 ascii: the loader with the reader it selects vs the skipper, case by case of the layout tests
     r4_ascii_cases(ctx)
 
@@ -1340,7 +1538,7 @@ def _ascii_cases(ctx):
     if "_c11_ascii_cases" in ctx.__dict__:
         return ctx._c11_ascii_cases
     res = ctx._c11_ascii_cases = {"cases": [], "ok": False}
-    skf = ctx.src.func(OP4, "OP4._skipop4_ascii")
+    skf = _func(ctx, OP4, "OP4._skipop4_ascii")
     la0 = _w4(ctx, "_loadop4_ascii", tag="discover", no_inline=SKIPPERS)
     sk0 = _w4(ctx, "_skipop4_ascii", tag="S", top_name="S")
     if la0 is None or sk0 is None:
@@ -1537,10 +1735,16 @@ def r5_listing_equals_read(ctx):
         ok = len(lst) == 1 and len(full) == 1
         size = lst[0][0][1] if len(lst) == 1 else None
         ok = ok and isinstance(size, tuple) and len(size) == 2
+        if not ok and (len(lst) != 1 or len(full) != 1):
+            # (the two kinds of result are told apart by the test on `listonly` that guards them: another layout of the returns is not understood)
+            ctx.error(f"{loader}: the return of a listing and the return of a full read could not be told apart", fn,
+                      {"returns guarded by listonly": len(lst), "other returns of a matrix": len(full)})
+            continue
         ctx.check(ok, f"{loader}: a listing returns (name, (rows, cols), form, mtype); a full read (name, matrix, form, mtype)", fn,
                   None if ok else {"listing returns": len(lst), "full returns": len(full)})
-        ok = len(lst) == 1 and len(full) == 1 and all(C.same(lst[0][0][i], full[0][0][i]) for i in (0, 2, 3))
-        ctx.check(ok, f"{loader}: a full read returns (name, X, form, mtype) with the same name / form / type values as the listing", fn)
+        ok = all(C.same(lst[0][0][i], full[0][0][i]) for i in (0, 2, 3))
+        _verdict(ctx, ok, f"{loader}: a full read returns (name, X, form, mtype) with the same name / form / type values as the listing", fn, None,
+                 *[x for r in (lst[0], full[0]) for i, x in enumerate(r[0]) if i in (2, 3)])
         if isinstance(size, tuple) and len(size) == 2:
             for rd in rds:
                 ini, _stores, fin = _matrix_calls(rd["w"])
@@ -1553,6 +1757,7 @@ def r5_listing_equals_read(ctx):
         name = lst[0][0][0] if len(lst) == 1 else None
         skips = [e for e in w.events if e[0] == "call" and e[1] == skipper]
         ok = len(skips) >= 1 and _rat(name)
+        lowered = True
         if ok:
             # skip <=> listonly or (patternlist and name not in patternlist)   (the skipper may be called on several paths)
             inn = C.canon_tests(F.fn("cmp:In", name, plist))
@@ -1561,15 +1766,22 @@ def r5_listing_equals_read(ctx):
                 got = ("or", [C.guard_form(_loop_guard(e[4])) for e in skips])
                 ok = C.bool_equiv(got, want)
             except Unsupported:
-                ok = False
-        ctx.check(ok, f"{loader}: a matrix is skipped exactly when listing or when its name is not in the requested list", fn,
-                  None if ok else {"skip calls": len(skips)})
+                ok = lowered = False
+        if not lowered or not _rat(name):
+            ctx.error(f"{loader}: the condition under which the skipper is called could not be lowered", fn, {"skip calls": len(skips)})
+        else:
+            ctx.check(ok, f"{loader}: a matrix is skipped exactly when listing or when its name is not in the requested list", fn,
+                      None if ok else {"skip calls": len(skips)})
         np_ = C.fn_parts(name) if _rat(name) else None
         normalisers[loader] = np_[0] if np_ is not None and np_[0].startswith("call:self.") else None
     ok = len(normalisers) == 2 and len(set(normalisers.values())) == 1 and None not in normalisers.values()
     if len(normalisers) == 2:          # (a loader that could not be walked has been reported as an analysis error)
-        ctx.check(ok, "both loaders normalise the matrix name with the same method before filtering (same names in listings, filters and reads of "
-                      "ASCII and binary files)", ctx.src.func(OP4, "OP4._loadop4_ascii"), None if ok else normalisers)
+        text = "both loaders normalise the matrix name with the same method before filtering (same names in listings, filters and reads of ASCII and binary files)"
+        if not ok and None in normalisers.values():
+            # (a name normalised in place, not through a method of the class: what it is compared with is not known)
+            ctx.error(text + " [cannot be decided: a loader does not normalise the name through a method of the class]", _func(ctx, OP4, "OP4._loadop4_ascii"), normalisers)
+        else:
+            ctx.check(ok, text, _func(ctx, OP4, "OP4._loadop4_ascii"), None if ok else normalisers)
     for q in ("dctload", "listload", "dir"):
         w = _w4(ctx, q, tag="nofile", follow=_no_file_helpers(ctx, OP4, "OP4"))
         if w is None:
@@ -1632,24 +1844,27 @@ def r5_listing_equals_read(ctx):
             ctx.check(ok, "rdop2matrix allocates (trailer[2] rows [x 2 reals for a complex type], trailer[1] columns)", mt.fn)
     if d is not None:
         sns = [e for e in d.events if e[0] == "call" and (e[1] or "").endswith("SimpleNamespace")]
-        ok = len(sns) == 1
+        ok = bound = len(sns) == 1
         if ok:
             kw = sns[0][3]
             tr, size = kw.get("trailer"), kw.get("size")
-            ok = _rat(tr) and isinstance(size, tuple) and len(size) == 2
+            ok = bound = _rat(tr) and isinstance(size, tuple) and len(size) == 2
             if ok:
                 want = (F.fn("idx", tr, F.const(2)), F.fn("idx", tr, F.const(1)))
                 got = set()
                 for _p, v in C.leaves(list(size)):
                     got.add((repr(C.norm(v[0])), repr(C.norm(v[1]))))
                 ok = (repr(C.norm(want[0])), repr(C.norm(want[1]))) in got
-        ctx.check(ok, "directory reports matrix sizes from trailer[2] x trailer[1] of the trailer it stores, the fields rdop2matrix allocates from", d.fn)
+        if not bound:
+            ctx.error("directory: the record it stores per data block (a namespace with the fields `trailer` and `size`) could not be identified", d.fn, len(sns))
+        else:
+            ctx.check(ok, "directory reports matrix sizes from trailer[2] x trailer[1] of the trailer it stores, the fields rdop2matrix allocates from", d.fn)
     # a positioned read (rdop2mats): seek to the start the directory recorded, re-read name and trailer, decode with the trailer of that block
     rm = _w2(ctx, "rdop2mats", tag="nofile", follow=_no_file_helpers(ctx, OP2, "OP2", keep=("self.set_position", "self.rdop2nt", "self.rdop2matrix")))
     if rm is not None:
         calls = [e for e in rm.events if e[0] == "call" and e[1] in ("self.set_position", "self.rdop2nt", "self.rdop2matrix")]
         reads = [i for i, e in enumerate(calls) if e[1] == "self.rdop2matrix"]
-        ok = bool(reads)
+        ok = bound = bool(reads)
         for i in reads:
             ok = ok and i >= 2 and calls[i - 1][1] == "self.rdop2nt" and calls[i - 2][1] == "self.set_position" and len(calls[i][2]) == 1 \
                 and len(calls[i - 2][2]) >= 1
@@ -1658,12 +1873,17 @@ def r5_listing_equals_read(ctx):
             pos, tr = calls[i - 2][2][0], calls[i][2][0]
             pp = C.fn_parts(pos) if _rat(pos) else None
             ok = pp is not None and pp[0] == "attr:start" and _rat(pp[1][0])
+            if not ok and (pp is None or not pp[0].startswith("attr:")):
+                bound = False          # (positioned by other means than a field of the directory entry: by name, by a stored offset)
             if ok:
                 sn = pp[1][0]
                 # the trailer the matrix is decoded with: the one the directory stored, or the one just re-read by rdop2nt (the same record)
                 ok = C.same(tr, F.fn("attr:trailer", sn)) or (_rat(calls[i - 1][8]) and C.same(tr, F.fn("idx", calls[i - 1][8], F.const(1))))
-        ctx.check(ok, "rdop2mats: a positioned read seeks to the start recorded by the directory scan, re-reads name and trailer, and decodes with the "
-                      "trailer of that data block", rm.fn)
+        if not ok and not bound:
+            ctx.error("rdop2mats: how a matrix is positioned before it is read could not be identified", rm.fn, [e[1] for e in calls])
+        else:
+            ctx.check(ok, "rdop2mats: a positioned read seeks to the start recorded by the directory scan, re-reads name and trailer, and decodes with the "
+                          "trailer of that data block", rm.fn)
 
 
 def _no_file_helpers(ctx, rel, cls, keep=()):
@@ -1721,16 +1941,20 @@ def r6_cursor(ctx):
                                                   "values decoded": repr(sites[0]["count_ff"]) if len(sites) == 1 else None,
                                                   "consequence": "parts of a multi-part record overlap or leave gaps whenever the element size differs from the key width"})
     _bound(ctx, n >= 1, f"cursor rule bound to {n} slice stores", fn)
-    ok = False
+    ok, found = False, False
     Np = F.sym("N")
     for k, v, _st in w.all_inits:
         p = C.fn_parts(v) if _rat(v) else None
-        if p is not None and p[0] in ("call:np.empty", "call:np.zeros") and len(p[1]) == 2 and _rat(p[1][0]) and p[1][0].equals(Np):
+        if p is not None and p[0] in ("call:np.empty", "call:np.zeros", "call:np.ndarray") and len(p[1]) == 2 and _rat(p[1][0]) and p[1][0].equals(Np):
             kw = C.fn_parts(p[1][1])
             dt = kw[1][0] if kw is not None and kw[0] == "kw:dtype" else p[1][1]        # dtype by keyword or as the second argument
             sites = w.cutovers
+            found = True
             ok = _rat(dt) and bool(sites) and all(C.same(dt, c["dtype"]) for c in sites)
-    ctx.check(ok, "rdop2record: the preallocated output has N elements of the dtype the records are decoded with", fn)
+    if not found:
+        ctx.error("rdop2record: the allocation of the output for the N values announced by the caller could not be identified", fn)
+    else:
+        ctx.check(ok, "rdop2record: the preallocated output has N elements of the dtype the records are decoded with", fn)
 
 
 def r6b_matrix_rows(ctx):
@@ -1866,7 +2090,7 @@ def r7_announced_format(ctx):
     start with"""
     rds = [rd for rd in _readers(ctx, "_loadop4_ascii") if rd["layout"] == "dense"]
     if len(rds) != 1:
-        ctx.error("_loadop4_ascii: the reader of the dense layout", ctx.src.func(OP4, "OP4._loadop4_ascii"))
+        ctx.error("_loadop4_ascii: the reader of the dense layout", _func(ctx, OP4, "OP4._loadop4_ascii"))
         return
     w, rf = rds[0]["w"], rds[0]["fn"]
     fn = w.fn
@@ -1894,7 +2118,10 @@ def r7_announced_format(ctx):
                 if sp is not None:
                     pl2.append(cs["ren_s"](sp[1]))
     ok = bool(pl2) and all(C.same(cs["ren_l"](pl), x, whole_values=False) for x in pl2)
-    ctx.check(ok, "_loadop4_ascii: the skipper is given the values-per-line the reader is given", fn)
+    if not pl2:
+        ctx.error("_loadop4_ascii: the values-per-line the skipper divides by could not be identified", fn)
+    else:
+        ctx.check(ok, "_loadop4_ascii: the skipper is given the values-per-line the reader is given", fn)
     # the used part of a data line: the bound every line of a block is cut at
     cuts = []
     for d in C.walk_atoms(text):
@@ -1936,9 +2163,22 @@ def r7_announced_format(ctx):
         if d[0] == "fn" and d[1] == "phi":
             c, x, y = (C._arg(k) for k in d[2])
             pc = C.fn_parts(c)
-            if pc is None or not pc[0].endswith(".startswith"):
+            lit, tested = None, None
+            if pc is not None and pc[0].endswith(".startswith"):
+                lit = C.sym_name(pc[1][-1]) if _rat(pc[1][-1]) else None
+            elif pc is not None and pc[0] in ("cmp:Eq", "eq0"):
+                # t[:k] == P  -  a prefix test written with a slice: it can only hold when k is the length of P
+                sides = list(pc[1]) if pc[0] == "cmp:Eq" else None
+                if sides is None and pc[1][0].d.is_const() and len(pc[1][0].n.t) == 2:
+                    sides = [F.Rat(F.Poly({m: 1})) for m in pc[1][0].n.t]
+                for a_, b_ in (sides, sides[::-1]) if sides and len(sides) == 2 else ():
+                    qa = C.fn_parts(a_) if _rat(a_) else None
+                    nb = C.sym_name(b_) if _rat(b_) else None
+                    sp = C._slice_parts(qa[1][1]) if qa is not None and qa[0] == "idx" and _rat(qa[1][1]) else None
+                    if sp is not None and nb and nb[:1] in "'\"" and sp[2] is None and (sp[0] is None or sp[0].is_zero()) and sp[1] is not None and sp[1].is_const():
+                        lit, tested = nb, int(sp[1].const_value())
+            if lit is None:
                 continue
-            lit = C.sym_name(pc[1][-1]) if _rat(pc[1][-1]) else None
             px = C.fn_parts(x)
             if lit is None or lit[:1] not in "'\"" or px is None or px[0] != "idx":
                 continue
@@ -1946,8 +2186,8 @@ def r7_announced_format(ctx):
             if sl is None or sl[0] != "slice" or not _rat(sl[1][0]) or not sl[1][0].is_const():
                 continue
             n += 1
-            if int(sl[1][0].const_value()) != len(ast.literal_eval(lit)) or not C.same(px[1][0], y):
-                good, detail = False, {"prefix": lit, "removed characters": str(sl[1][0].const_value())}
+            if int(sl[1][0].const_value()) != len(ast.literal_eval(lit)) or not C.same(px[1][0], y) or (tested is not None and tested != len(ast.literal_eval(lit))):
+                good, detail = False, {"prefix": lit, "removed characters": str(sl[1][0].const_value()), "characters tested": tested}
     if n:
         ctx.check(good, "_loadop4_ascii: an optional prefix of the announced format is removed by its own length, only when present", fn, detail)
 
@@ -1997,15 +2237,15 @@ def dotted_name(n):
 def r8_name_selection(ctx):
     """reading a named subset equals filtering a full read: a requested name without a wild card selects the data blocks of exactly that name"""
     # the predicate that decides whether a data block name is requested: reached from rdop2mats, wherever it lives
-    ctx.src.func(OP2, "OP2.rdop2mats")
+    _func(ctx, OP2, "OP2.rdop2mats")
     reach = _reachable(ctx, OP2, "OP2", "OP2.rdop2mats")
     preds = [(q, f, caller) for q, f, caller in reach if _is_predicate(f) and len([a for a in f.args.args if a.arg not in ("self", "cls")]) == 2]
     if len(preds) != 1:
         ctx.error("rdop2mats: the predicate that matches a data block name against the requested names (a helper of two arguments that "
-                  "returns a truth value)", ctx.src.func(OP2, "OP2.rdop2mats"), [q for q, _f, _c in preds])
+                  "returns a truth value)", _func(ctx, OP2, "OP2.rdop2mats"), [q for q, _f, _c in preds])
         return
     q, fn, caller = preds[0]
-    ctx.src.func(OP2, q)
+    _func(ctx, OP2, q)
     w = _walk(ctx, OP2, "OP2", q, tag="alone", follow=False)
     if w is None:
         return
